@@ -302,6 +302,17 @@ class Engine:
                     if not any(A.equal(per_row, W) for W in ws):
                         raise LayoutMismatch("line %d: slice [%s:%s] of %s advances by %s per row, but the rows of this array (%s) have width %s: writer and reader disagree on the layout, the stencil offset changes from row to row" % (
                             getattr(interp.dom, "cur_line", 0), A.show(s), A.show(e), arr.name, A.show(per_row), {"cell": "cells", "xi": "i-face block", "yj": "j-face block", "ff": "face array"}[arr.role], " or ".join(A.show(W) for W in ws)))
+            if not hits:
+                # right row width, but the start is displaced from every row start of that family by an
+                # amount that depends on the grid size (a face-count / offset mix-up such as
+                # nx*(ny+1) for ny*(nx+1)): correct only for particular (nx, ny)
+                per_row = A.sub(A.subst(s, {lid: jv + 1}), s)
+                for fam, base, W in self.widths(arr.role):
+                    if A.equal(per_row, W):
+                        off = A.sub(A.sub(s, base), jv * W)
+                        if self._const_int(off) is None and not any(a in self.loops for a in A.atoms_of(off)):
+                            raise LayoutMismatch("line %d: slice [%s:%s] of %s has the row width of the %s but starts %s entries away from the start of row j, an offset that depends on the grid size: it addresses the intended faces only for particular (nx, ny)" % (
+                                getattr(interp.dom, "cur_line", 0), A.show(s), A.show(e), arr.name, {"cell": "cells", "if": "i-faces", "jf": "j-faces"}.get(fam, fam), A.show(off)))
             if len(hits) != 1:
                 raise AnalysisError("row slice [%s:%s] of %s does not decode uniquely (%d matches)" % (A.show(s), A.show(e), arr.name, len(hits)))
             return hits[0]
